@@ -57,6 +57,17 @@ fixed("C10", "backslash-newline in an unquoted here-document body", "a backslash
 fixed("C10", "&> honours noclobber", "`&>f` truncated an existing file under set -C")
 fixed("C07", "hex, octal and oversized decimal arithmetic literals wrap", "`$((0x8000000000000000))`, `$((99999999999999999999))`, `$((0x))` were rejected")
 
+fixed("C06", "replacement text of", "`r='$0'; ${v/b/$r}` gave the matched text instead of `$0` (the value of the replacement was used as a regex capture template; `${1}`, `$$` likewise)")
+fixed("C06", "matches the empty string does not replace once more", "`x=ab; ${x//*(c)/X}` gave `XaXbX`, bash `XaXb`")
+fixed("C13", "after = or : is quoted", "`printf %q a=~` / `${v@Q}` / xtrace left `~` after `=` or `:` bare; re-read as an argument it was tilde-expanded")
+fixed("C01", "in a printf format stops the output", "`printf '\\c%s' a b` looped forever (the `\\c` break left the argument loop running without consuming arguments)")
+fixed("C01", "while expanding PS4 are not traced", "`PS4='$(echo x) '; set -x; echo hi` recursed until the stack was exhausted")
+fixed("C01", "alias with an empty value", "`alias e=''; e` panicked (index 0 of an empty word list)")
+fixed("C01", "descending brace ranges with a huge step", "`echo {z..a..200}` and `{-5..-9223372036854775807..9223372036854775807}` panicked on a subtraction overflow")
+fixed("C01", "largest array index wraps", "`a=([18446744073709551615]=x y)` panicked with an addition overflow")
+fixed("C01", "mapfile -O with a huge origin", "`mapfile -O 9223372036854775807 a` panicked with an addition overflow")
+fixed("C01", "caller with a huge frame number", "`caller 18446744073709551615` panicked with an addition overflow")
+fixed("C01", "SHLVL=4294967295", "`SHLVL=4294967295 brush -c true` panicked at start-up")
 # ---------------------------------------------------------------------------------------------- C01
 finding("C01-huge-brace-range", "C01", "a brace range with an astronomically large bound (`{1..9223372036854775807}`, `{4294967296..3}`) exhausts memory/time (capacity-overflow panic, abort or hang) where bash prints the braces literally",
         all=["huge-range"], why="needs an allocation policy for brace expansion, not a local patch")
@@ -67,6 +78,8 @@ finding("C01-nested-array-index-exponential-binary", "C01", "same exponential su
 finding("C01-syntax-error-accepted-redirect-target", "C01", "`{ echo a; } > 2>&1` (redirection operator as a redirection target) is accepted silently; bash reports a syntax error",
         all=["syntax-error-accepted"], why="grammar change in the redirect target rule; interacts with many accepted forms")
 
+finding("C01-printf-width-in-uucore", "C01", "`printf '%65536d' 1`, `printf '%*d' 65536 1` and `printf '%*s' -9223372036854775808 a` panic inside the third-party formatter (uucore format/spec.rs: a width above 65535 is passed to core::fmt, and the negative `*` width is negated)",
+        all=["panic"], oracle="no-crash", observed_contains="uucore-", why="the defect is in the uucore crate; brush's printf hands the format over unparsed, so a guard would have to re-implement the width parsing")
 # ---------------------------------------------------------------------------------------------- C02
 for k in ["break", "continue"]:
     finding(f"C02-{k}-outside-loop", "C02", f"`{k}` outside any loop (or with more levels than enclosing loops) is not a no-op: the control flow escapes to the program level and silently ends the script (or yields status 99 at a function boundary)",
@@ -87,6 +100,8 @@ finding("C03-errexit-negated-group", "C03", "`{ ! { ! ko; }; }` under set -e exi
         all=["brush-exits-bash-continues"], why="errexit suppression is not propagated back out of compound commands")
 finding("C03-negated-loop-in-subshell", "C03", "`( ! while …; do ko; done )` under set -e: bash leaves the subshell at the failing command, brush keeps looping",
         all=["other-divergence", "subshell", "not"], why="bash's own corner (negated compound as the only command of a subshell)")
+finding("C03-err-trap-inside-negated-compound", "C03", "`! while c; do ko; done` with an ERR trap: bash runs the trap after each failing `ko` inside the negated loop, brush suppresses it there and runs it after the loop instead",
+        all=["other-divergence", "not"], observed_contains="ERR", why=PINNED + " (same mechanism as C03-err-trap-fires-twice: where Pipeline::execute reports a failure)")
 finding("C03-nounset-arith-and-transforms", "C03", "under set -u, arithmetic on an unset variable is a non-fatal error (bash aborts), `${v@a}`/`${v@A}` of unset targets are accepted, `${#v[@]}`/`${!v}` differ, `$!` is accepted when unset",
         all=["nounset"], why=PINNED + " ('Special parameter $! does not error when no background jobs'); the rest needs a uniform unset check in every operator arm")
 
@@ -140,6 +155,10 @@ finding("C08-test-forces-extglob", "C08", "`[[ s == p ]]` does not force extglob
 finding("C08-bracket-edge-cases", "C08", "bracket expressions containing `!`/`-`/`\\` at the edges (`[!-]`, `[\\]]`, `[a-]`) differ from bash",
         all=["pat:bracket"], none=["glob"])
 
+finding("C08-extglob-empty-alternative", "C08", "extglob groups with an empty alternative (`*@()`, `*!()`, `!(|)`) disagree with bash on the empty subject and on subjects that only the empty alternative accounts for",
+        all=["pat:empty-alternative", "pat:extglob-group"], why="the extglob-to-regex translation gives `()` the regex meaning; bash itself is irregular here (see C06 false-alarm note), a repair would have to mirror bash's matcher case by case")
+finding("C08-extglob-paren-inside-group", "C08", "`*(()`, `?(()`, `!(()`: a bare `(` inside an extglob group (bash takes the pattern as unbalanced and matches nothing; brush matches the empty repetition)",
+        all=["pat:paren-inside-group", "pat:extglob-group"], why="same translation; degenerate pattern")
 # ---------------------------------------------------------------------------------------------- C09
 finding("C09-exported-array-in-env", "C09", "an exported array reaches children as `a=<first element>`; bash does not export arrays",
         all=["act:export-a"])
